@@ -180,3 +180,28 @@ func H_C16_step() {
 }
 
 func p0eq(m Requested, i, b, l uint32) bool { return m.Index == i && m.Begin == b && m.Length == l }
+
+// H_C17_peer_exit: the whole of peer.Run with the torrent already gone and the torrent's event
+// queue in any fill state (parameter free = free slots: 0, 1, 2 or plenty): Run returns (does
+// not spin or block), closes the connection, and stops being counted as unchoked.
+func H_C17_peer_exit() {
+	pcs := &piece.Pieces{}
+	pcs.MetadataComplete(16384, 4*16384)
+	conn := &vFakeConn{}
+	free := vParam("free")
+	tev := make(chan TorEvent, 8)
+	for i := 0; i < 8-free; i++ {
+		tev <- TorGoAway{}
+	}
+	done := make(chan struct{})
+	close(done)
+	p := &Peer{conn: conn, Pieces: pcs, canFast: vBool("fast"), Port: uint32(vU16("port")), Event: make(chan PeerEvent, 4), Done: make(chan struct{})}
+	un := uint32(vChoose("unchoking", 0, 1))
+	p.amUnchoking = un
+	numUnchoking = int32(un)
+	err := Run(p, tev, done, []byte{1}, nil, nil)
+	vReach("returned")
+	_ = err
+	vAssert(conn.closed, "the exit path closes the connection")
+	vAssert(numUnchoking == 0, "a peer that has exited is not counted as unchoked")
+}
